@@ -16,7 +16,8 @@ RULE = ("for every configuration of the lattice (16 flag sets x velocity_bins x 
         "member; distinct = distinct (configuration, member); non-trivial = configuration differs from the two the suite builds")
 ASSUMPTIONS = ["a tokenise call that raises TokenisationException is a rejection, not a violation"]
 REQUIRED_FLAGS = ["construction_history", "unfused_velocity", "unfused_track", "unfused_value", "no_running_values", "bins_gt_1", "multi_track",
-                  "closure_tokens_checked", "rejection_observed", "irregular_input_accepted", "member_detokenised"]
+                  "closure_tokens_checked", "rejection_observed", "irregular_input_accepted", "member_detokenised",
+                  "piece_at_high_resolution_accepted"]
 
 FLAGS = list(itertools.product((True, False), repeat=4))   # running, fuse_track, fuse_value, fuse_velocity
 VALUE_SETS = [None, [6, 12, 36], [12]]
@@ -61,8 +62,16 @@ def lattice(tier):
                 yield dict(fl=fl, vb=vb, nt=1, pr=(60, 61), nv=2, st=0, tsr=1)
 
 
+def resolutions(tier):
+    """scale in the time resolution: PPQN 96 / 480 / 960 with step sizes and note values of that resolution (token fields
+    of four digits)"""
+    for ppqn in (96, 480, 960):
+        for fl in (FLAGS[0], FLAGS[15], FLAGS[4], FLAGS[11]):
+            yield dict(fl=fl, vb=2, nt=2, pr=(60, 61), nv=0, st=0, tsr=0, ppqn=ppqn)
+
+
 def context(tier, seed):
-    n = sum(1 for _ in lattice(tier))
+    n = sum(1 for _ in lattice(tier)) + sum(1 for _ in resolutions(tier))
     return {"tier": tier, "bounds": {"configurations": n, "flags": 16, "velocity_bins": "see lattice()", "tier": tier}}
 
 
@@ -83,12 +92,18 @@ def histories(tier):
 
 
 def units(ctx):
-    return list(lattice(ctx["tier"])) + histories(ctx["tier"])
+    return list(lattice(ctx["tier"])) + histories(ctx["tier"]) + list(resolutions(ctx["tier"]))
 
 
 def make_tok(cfg):
     fl = cfg["fl"]
     nv, st = VALUE_SETS[cfg["nv"]], STEP_SETS[cfg["st"]]
+    if cfg.get("ppqn"):
+        q = cfg["ppqn"]
+        return Tok(ppqn=q, num_tracks=cfg["nt"], pitch_range=tuple(cfg["pr"]), velocity_bins=cfg["vb"],
+                   step_sizes=[q // 4, q // 2, q, 2 * q, 4 * q], note_values=[q // 4, q // 2, q, q + q // 2, 2 * q, 8 * q // 3 if q % 3 == 0 else 3 * q, 4 * q],
+                   time_signature_range=TSR[cfg["tsr"]], flag_running_values=fl[0], flag_fuse_track=fl[1],
+                   flag_fuse_value=fl[2], flag_fuse_velocity=fl[3])
     return Tok(num_tracks=cfg["nt"], pitch_range=tuple(cfg["pr"]), velocity_bins=cfg["vb"],
                step_sizes=list(st) if st else None, note_values=list(nv) if nv else None,
                time_signature_range=TSR[cfg["tsr"]], flag_running_values=fl[0], flag_fuse_track=fl[1],
@@ -106,6 +121,11 @@ def pool(cfg, t):
     def tracks(first, others=None):
         return [first] + [(others[k] if others and k < len(others) else Sequence()) for k in range(nt - 1)]
     out = []
+    if cfg.get("ppqn"):
+        # a piece written at the tokeniser's own resolution: 3/4, six bars, every note value once, ticks in the thousands
+        q = cfg["ppqn"]
+        ns = [(3 * q * b + (q // 2 if b % 2 else 0), vals[b % len(vals)] if vals[b % len(vals)] <= 2 * q else q, lo + b % 2, 0, 64) for b in range(6)]
+        out.append(("piece_at_resolution", tracks(lib.seq_abs(ns, [("ts", 0, 3, 4)], 18 * q), [lib.seq_abs([(q, vals[-1], hi, 0, 9)], [], None)])))
     out.append(("one_note", tracks(lib.seq_abs([(0, vm, lo, 0, 64)]))))
     out.append(("loud_and_soft", tracks(lib.seq_abs([(0, vm, lo, 0, 1), (24, vm, hi, 0, 127), (48, v1, lo, 0, 100)]))))
     out.append(("rest_crossing_bar", tracks(lib.seq_abs([(96 + 24, vm, hi, 0, 33)]))))
@@ -216,6 +236,8 @@ def run_unit(cfg, acc, ctx):
             bad("tokenise_raises_other_exception", f"{name}: {type(e).__name__}: {e}", {"input": name})
             continue
         acc.outcomes.add("accepted:" + name)
+        if name == "piece_at_resolution" and cfg["ppqn"] >= 480:
+            acc.flags["piece_at_high_resolution_accepted"] += 1
         if name in ("mid_bar_signature", "overlapping_same_pitch", "bars_rejoined"):
             acc.flags["irregular_input_accepted"] += 1
         acc.flags["closure_tokens_checked"] += len(toks)
